@@ -99,13 +99,55 @@ func structInitWrites(n *types.Named, ws writeSetT, depth int, kind int) {
 // freshBase reports whether the address is rooted in an object allocated by this very function
 // activation (a local Alloc), through any chain of nested-struct field addresses.
 func freshBase(v ssa.Value) bool {
+	_, ok := allocBases(v, 0)
+	return ok
+}
+
+// allocBases returns the allocation sites an address is rooted in when all of them are allocations of
+// this very function activation: a local Alloc, a field address of one, or a load from a local
+// pointer variable that is only ever assigned such allocations.
+func allocBases(v ssa.Value, depth int) ([]*ssa.Alloc, bool) {
+	if depth > 4 {
+		return nil, false
+	}
 	switch a := v.(type) {
 	case *ssa.Alloc:
-		return true
+		return []*ssa.Alloc{a}, true
 	case *ssa.FieldAddr:
-		return freshBase(a.X)
+		return allocBases(a.X, depth+1)
+	case *ssa.UnOp:
+		cell, ok := a.X.(*ssa.Alloc)
+		if !ok || a.Op.String() != "*" || cell.Referrers() == nil {
+			return nil, false
+		}
+		if _, isPtr := unalias(cell.Type().(*types.Pointer).Elem()).Underlying().(*types.Pointer); !isPtr {
+			return nil, false
+		}
+		var bases []*ssa.Alloc
+		stores := 0
+		for _, ref := range *cell.Referrers() {
+			switch r := ref.(type) {
+			case *ssa.Store:
+				if r.Addr != cell {
+					return nil, false // the cell's address escapes as a stored value
+				}
+				stores++
+				na, ok := r.Val.(*ssa.Alloc)
+				if !ok {
+					return nil, false
+				}
+				bases = append(bases, na)
+			case *ssa.UnOp, *ssa.DebugRef:
+			default:
+				return nil, false // address passed elsewhere
+			}
+		}
+		if stores == 0 {
+			return nil, false
+		}
+		return bases, true
 	}
-	return false
+	return nil, false
 }
 
 func addrWrites(addr ssa.Value, ws writeSetT) {
@@ -193,6 +235,16 @@ func callWrites(e *Engine, c *ssa.CallCommon, ws writeSetT) {
 		callee = v.Fn.(*ssa.Function)
 	}
 	if callee == nil {
+		// unknown function value: may write through the struct pointers it receives
+		if _, isFn := fieldSpecKeyOf(c.Value); !isFn {
+			for _, a := range c.Args {
+				if pt, ok := unalias(a.Type()).Underlying().(*types.Pointer); ok {
+					if n, ok := isStructVal(pt.Elem()); ok && namedPath(pt.Elem()) != "time.Time" {
+						structInitWrites(n, ws, 0, wFull)
+					}
+				}
+			}
+		}
 		return
 	}
 	mname := calleeModelName(callee)
@@ -231,6 +283,8 @@ func callWrites(e *Engine, c *ssa.CallCommon, ws writeSetT) {
 		ws.add(h, k)
 	}
 }
+
+func fieldSpecKeyOf(v ssa.Value) (string, bool) { return "", false }
 
 // writeSet computes (memoised, recursion-safe) the syntactic write set of a repo function.
 func (e *Engine) writeSet(fn *ssa.Function) writeSetT {
